@@ -128,6 +128,12 @@ def c01_groups(cases, ctx):
                 for rep in range(3 if ctx["tier"] == "quick" else 25):
                     o = dict(nil=False, log=0, url=True, skip=False, algo=algo)
                     out.append(dict(p=dict(doc=d + N_DOCS * rep, root="document", hist=[step(o, "apply", url)])))
+    # every odd pager shape (richdoc 23 has 15 of them) under the page URLs they are written for, both finders
+    for rep in range(15):
+        for url in (18, 19, 1, 4):
+            for algo in ("prevnext", "pagenumber"):
+                o = dict(nil=False, log=0, url=True, skip=False, algo=algo)
+                out.append(dict(p=dict(doc=23 + N_DOCS * rep, root="document", hist=[step(o, "apply", url)])))
     return out
 
 
